@@ -45,6 +45,13 @@ CHECKS = {
                      'graph after every step, one registered/unregistered announcement per operation, probes neither lost, duplicated nor '
                      'crossing trees, every unregistration completes',
                 note='trusted: z3/pathex, ghost forest; one recorded known finding (ancestor detaches first) is reported as KNOWN-FINDING'),
+    'C08': dict(engine='pathex', technique=TECH, ref='DESIGN.md 4/C08',
+                text='bounded symbolic execution of the real run()/stop()/tick() loop executed in the checking thread: stop placement '
+                     '(started / mid-chain / generator step / real second thread at the idle wait), stop kind, chain lengths and run '
+                     'cycles are solver-enumerated choices and the exit code is an unconstrained z3 Int; started/stopped exactly once, '
+                     'everything fired is dispatched before run() ends, exit code equality discharged by z3, stop() when not running is a no-op',
+                note='trusted: z3/pathex, the idle-wait double, no-op signal/atexit; three recorded known findings (stop(code) in a handler '
+                     'loses the code; SystemExit(code) in a handler skips `stopped` and leaves events queued)'),
     'C09': dict(engine='pathex', technique=TECH, ref='DESIGN.md 4/C09',
                 text='bounded symbolic execution of the real Timer / generate_events / fall-back idle code with the wall clock as a '
                      'symbolic variable: intervals, clock advances between iterations and idle-wait durations are z3 Reals; not-early, '
